@@ -272,6 +272,14 @@ def r03_3(ctx):
     deny.control_obligations(ctx, "reorder")
 
 
+# iterator combinators that run a closure once per item -> whether an Err/Break result of the closure stops them
+ITER_DRIVERS = {
+    "std::iter::Iterator::try_for_each": True,
+    "std::iter::Iterator::try_fold": True,
+    "std::iter::Iterator::for_each": False,
+}
+
+
 @rule("R03.4", 6, "document loops forward every document exactly once per iteration", ["C03"])
 def r03_4(ctx):
     lib = ctx.lib
@@ -304,6 +312,33 @@ def r03_4(ctx):
                     res = t["dest"]["l"]
                     used = any((fn_of(tt) or {}).get("def") == "std::ops::Try::branch" and is_place(tt["args"][0]) and tt["args"][0]["p"]["l"] == res for _, tt in b.calls()) or res == 0
                     ctx.ob(f"{key}:failure-stops-loop", used, site(b, bb), "a failed document ends the translation" if used else "a failed document is skipped silently")
+            # a loop driven by an iterator combinator: the closure body is the loop body
+            for dbb, dt in b.calls():
+                df = fn_of(dt) or {}
+                if df.get("def") not in ITER_DRIVERS:
+                    continue
+                for cid in df.get("closures", []):
+                    cb = lib.by_id.get(cid)
+                    if cb is None:
+                        continue
+                    con = [(bb, t) for bb, t in cb.calls() if common.output_role(ctx.facts, fn_of(t)) in ("from", "value")]
+                    if not con:
+                        continue
+                    n += 1
+                    key = f"{fmt}:{b.name}:{df['def'].rsplit('::', 1)[-1]}"
+                    # an iteration ends either by forwarding or by an error return, which stops a try_* driver
+                    stops = [bb for bb, t in cb.calls() if (fn_of(t) or {}).get("def") == "std::ops::FromResidual::from_residual"] if ITER_DRIVERS[df["def"]] else []
+                    ok = cb.must_pass(0, cb.return_blocks(), [bb for bb, _ in con] + stops)
+                    ctx.ob(f"{key}:every-iteration-forwards", ok, site(cb, 0), "each run of the loop closure passes through Output::transcode_* or stops the loop with an error" if ok else "an iteration can complete without forwarding its document (document dropped)")
+                    once = len(con) == 1 and not cb.on_cycle(con[0][0])
+                    ctx.ob(f"{key}:forwards-once", once, site(cb, 0), f"{len(con)} transcode call(s) per iteration" if once else "more than one transcode call in one iteration (document duplicated)")
+                    for bb, t in con:
+                        res = t["dest"]["l"]
+                        inner = res == 0 or any((fn_of(tt) or {}).get("def") == "std::ops::Try::branch" and is_place(tt["args"][0]) and tt["args"][0]["p"]["l"] == res for _, tt in cb.calls())
+                        dres = dt["dest"]["l"]
+                        outer = dres == 0 or any((fn_of(tt) or {}).get("def") == "std::ops::Try::branch" and is_place(tt["args"][0]) and tt["args"][0]["p"]["l"] == dres for _, tt in b.calls())
+                        used = bool(ITER_DRIVERS[df["def"]]) and inner and outer
+                        ctx.ob(f"{key}:failure-stops-loop", used, site(cb, bb), "a failed document ends the translation" if used else "a failed document does not end the translation")
             if not heads and tcalls and b is ep and fmt == "toml":
                 ctx.ob(f"{fmt}:single-document", len(tcalls) == 1 and not b.on_cycle(tcalls[0][0]), site(b), "TOML input forwards exactly one document", trivial=True)
     ctx.ob("document-loops", n >= 6, "lib", f"{n} document loop(s) analysed")
@@ -364,6 +399,9 @@ def _bounded_by_constants(lib, cm, body, op, depth=0, seen=None):
         rv = tr.origin[1]["rv"]
         if rv["k"] == "cast":
             return _bounded_by_constants(lib, cm, body, rv["op"], depth + 1, seen)
+        # unsigned `a - b`, `a / b`, `a >> b` (when they do not panic) are at most `a`
+        if rv["k"] == "binop" and rv["op"] in ("Sub", "SubWithOverflow", "SubUnchecked", "Div", "Shr") and is_place(rv["a"]) and rv["a"]["p"].get("ty", "") in ("usize", "u64", "u32", "u16", "u8", "u128"):
+            return _bounded_by_constants(lib, cm, body, rv["a"], depth + 1, seen)
     return False, []
 
 
@@ -774,28 +812,35 @@ def r05_5(ctx):
                     shrinkers.setdefault(b.id, []).append(f["name"])
     ctx.ob("shrinkers-exist", bool(shrinkers), site(cr), f"methods that empty `{fld}`: { {k.rsplit('::', 1)[-1]: v for k, v in shrinkers.items()} }")
     movers = {k for k, v in shrinkers.items() if any(x in ("split_off", "replace", "take") for x in v)}
-    cn = common.chunker(ctx.facts)["loop"]
-    done = False
-    for t in lib.tables_of(cn.id):
-        if t["form"] != "match":
-            continue
-        for arm in t["arms"]:
-            names = {tables.short(l[1]) for l in tables.pat_literals(arm["pat"]) if l[0] == "path"}
-            if "YAML_DOCUMENT_END_EVENT" in names:
-                sp = arm["span"]
-                calls = [(bb, tt) for bb, tt in cn.calls() if sp["line"] <= tt["line"] <= sp["end_line"] and ((fn_of(tt) or {}).get("resolved") or (fn_of(tt) or {}).get("def")) in movers]
-                ok = len(calls) >= 1
-                if ok:
-                    # the cut point is an offset reported by the event itself (a method of the polled event)
-                    off = trace(cn, calls[0][1]["args"][1])
-                    ok = False
-                    if off.origin and off.origin[0] == "call" and (fn_of(off.origin[2]) or {}).get("local") and off.origin[2]["args"]:
-                        ev = trace(cn, off.origin[2]["args"][0], passthrough_extra=("std::result::Result::<T, E>::map_err",))
-                        ok = bool(ev.origin and ev.origin[0] == "call" and _is_parser_poll(lib, cn, ev.origin[2]) and cn.local_ty(off.origin[2]["dest"]["l"]) == "u64")
-                done = True
-                ctx.ob("document-end-takes-chunk", ok, site(cn, calls[0][0]) if calls else site(cn), "on DOCUMENT_END the captured bytes up to the event's end offset are moved out of the buffer" if ok else "the capture buffer is not emptied at the end of a document: it grows with the stream")
-    if not done:
-        ctx.ob("document-end-takes-chunk", False, site(cn), "no arm for YAML_DOCUMENT_END_EVENT found")
+    ch = common.chunker(ctx.facts)
+    cn = ch["loop"]
+    sup = ch["sup"]
+    # on the edge the event dispatch takes for DOCUMENT_END, the captured bytes are moved out of the buffer
+    # before the parser is polled again or `next` returns (decided on the chunker's supergraph: the arm may
+    # do it itself or through a helper method)
+    end_edges = common.chunker_event_edges(ctx.facts)["YAML_DOCUMENT_END_EVENT"]
+    polls = [n for n, b_, t in sup.calls() if _is_parser_poll(lib, b_, t)]
+    mover_calls = [(n, b_, t) for n, b_, t in sup.calls() if ((fn_of(t) or {}).get("resolved") or (fn_of(t) or {}).get("def")) in movers]
+    ctx.need(polls, "parser poll not found in the chunker")
+    for sn, lab, dst in end_edges:
+        through = [n for n, _, _ in mover_calls]
+        ok = bool(through) and sup.must_pass(dst, polls + sup.exits(), through)
+        at = sup.site(sn)
+        if ok:
+            # the cut point is an offset reported by the event itself (a method of the polled event)
+            ok = False
+            reach = sup.reachable_from(dst)
+            for mn, mb, mt in mover_calls:
+                if mn not in reach or len(mt["args"]) < 2:
+                    continue
+                off = strace(sup, mn, mt["args"][1])
+                if off.origin and off.origin[0] == "call" and (fn_of(off.origin[2]) or {}).get("local") and off.origin[2]["args"]:
+                    onode = (off.origin_node[0], off.origin[1])
+                    ob_ = sup.body_of(onode)
+                    ev = strace(sup, onode, off.origin[2]["args"][0], extra=("std::result::Result::<T, E>::map_err",))
+                    ok = bool(ev.origin and ev.origin[0] == "call" and _is_parser_poll(lib, sup.body_of((ev.origin_node[0], ev.origin[1])), ev.origin[2]) and ob_.local_ty(off.origin[2]["dest"]["l"]) == "u64")
+                    at = sup.site(mn)
+        ctx.ob("document-end-takes-chunk", ok, at, "on DOCUMENT_END the captured bytes up to the event's end offset are moved out of the buffer" if ok else "the capture buffer is not emptied at the end of a document: it grows with the stream")
     # the loop polls the parser once per iteration and does not retain events
     pe = [(bb, t) for bb, t in cn.calls() if _is_parser_poll(lib, cn, t)]
     ctx.ob("one-parser-poll-per-iteration", len(pe) == 1 and cn.on_cycle(pe[0][0]), site(cn), "events are consumed one at a time")
